@@ -311,6 +311,7 @@ theorem btMig_sound (cfg : BlockTx.Cfg) (hA : cfg.overwriteMigrated = false) (hB
     | failed => rw [hret] at hst; cases hst
     | crashed => rw [hret] at hst; cases hst
     | diverged => rw [hret] at hst; cases hst
+    | failedNil => rw [hret] at herr; cases herr
 
 theorem hsMig_sound (orig : Nat → HS.OrigA) (n : Nat) :
     hsMig.Sound (fun db _ => HS.Inv orig db ∧ db.n = n) (fun db => HS.Done orig db ∧ db.n = n) := by
